@@ -62,18 +62,40 @@ theorem Sched.wf_plain {c : Dag} {P : Paths} {L : List (NodeId × Op)} (g : Good
   rw [hpo]
   exact ⟨wiredOp_wf (g.inv.op_wf i o' hm), plainOp'_wiredOp (hpl i o' hm)⟩
 
-theorem Sched.input_not_key {c : Dag} {P : Paths} {L : List (NodeId × Op)} (g : Good c P) (hpl : AllPlain c) (hS : Sched c P L) :
+/-- no operation of the circuit is filed under the key "Input" (class name `Input`, or a user label "Input"): all the depth
+    theorems need — weaker than `AllPlain`, it admits arbitrary other user labels such as the solver's "Fixed" -/
+def NoInputKey (c : Dag) : Prop := ∀ i o, (NodeId.op i, o) ∈ c.nodes → "Input" ∉ o.indexKeys
+
+theorem noInputKey_of_allPlain {c : Dag} {P : Paths} (g : Good c P) (hpl : AllPlain c) : NoInputKey c :=
+  fun i o hm => Dag.input_not_key (g.inv.op_wf i o hm) (hpl i o hm).toPlainOp
+
+theorem Sched.input_not_key_of {c : Dag} {P : Paths} {L : List (NodeId × Op)} (hk : NoInputKey c) (hS : Sched c P L) :
     ∀ p ∈ L, "Input" ∉ p.2.indexKeys := by
   intro p hp
-  obtain ⟨h1, h2⟩ := hS.wf_plain g hpl p.2 (List.mem_map.mpr ⟨p, hp, rfl⟩)
-  exact Dag.input_not_key h1 h2.toPlainOp
+  obtain ⟨i, o, _, hm, hpo⟩ := hS.op_node hp
+  rw [hpo, wiredOp_indexKeys]
+  exact hk i o hm
+
+theorem Sched.input_not_key {c : Dag} {P : Paths} {L : List (NodeId × Op)} (g : Good c P) (hpl : AllPlain c) (hS : Sched c P L) :
+    ∀ p ∈ L, "Input" ∉ p.2.indexKeys := hS.input_not_key_of (noInputKey_of_allPlain g hpl)
 
 /-! ## counting metrics -/
 
-theorem cnot_pred_eq {op : Op} (hwf : OpWF op) (hp : PlainOp op) :
+/-- the hypothesis of the two label-index counts: at most two quantum registers, and no operation carries one of the three
+    queried names as a (user) label — every other user label is admitted -/
+def CountOK (c : Dag) : Prop := ∀ i o, (NodeId.op i, o) ∈ c.nodes →
+  o.qregs.length ≤ 2 ∧ "Emitter-Emitter" ∉ o.labels ∧ "CNOT" ∉ o.labels ∧ "MeasurementCNOTandReset" ∉ o.labels
+
+theorem countOK_of_allPlain {c : Dag} (hpl : AllPlain c) : CountOK c := by
+  intro i o hm
+  have hp := (hpl i o hm).toPlainOp
+  exact ⟨hp.arity, fun h => hp.labels _ h (by decide), fun h => hp.labels _ h (by decide), fun h => hp.labels _ h (by decide)⟩
+
+theorem cnot_pred_eq_of {op : Op} (hwf : OpWF op) (har : op.qregs.length ≤ 2) (hl1 : "Emitter-Emitter" ∉ op.labels)
+    (hl2 : "CNOT" ∉ op.labels) :
     (["Emitter-Emitter", "CNOT"].all fun l => op.indexKeys.contains l) =
       (decide (op.kind = .cnot) && decide (op.qregs.map (·.ty) = [.e, .e])) := by
-  have := cnot_keys_iff hwf hp
+  have := cnot_keys_iff_of hwf har hl1 hl2
   by_cases hc : op.kind = .cnot ∧ op.qregs.map (·.ty) = [.e, .e]
   · have := this.mpr hc
     simp [hc.1, hc.2, this.1, this.2]
@@ -90,8 +112,9 @@ theorem cnot_pred_eq {op : Op} (hwf : OpWF op) (hp : PlainOp op) :
       simp [h2, this]
     · simp [h2]
 
-/-- **`CircuitCnotCount` on any circuit satisfying DagInv** = number of emitter–emitter CNOTs of the scheduled list -/
-theorem cnotCount_eq_spec_sched {c : Dag} {P : Paths} {L : List (NodeId × Op)} (g : Good c P) (hpl : AllPlain c)
+/-- **`CircuitCnotCount` on any circuit satisfying DagInv** = number of emitter–emitter CNOTs of the scheduled list (hypothesis
+    `CountOK`: no operation carries one of the queried names as a label) -/
+theorem cnotCount_eq_spec_sched_of {c : Dag} {P : Paths} {L : List (NodeId × Op)} (g : Good c P) (hc : CountOK c)
     (hS : Sched c P L) : Metrics.cnotCount c = Spec.cnotCount (L.map (·.2)) := by
   rw [cnotCount_eq_length, length_getNodeByLabels_ops ⟨P, g⟩ _ (by decide) (by decide)]
   unfold Spec.cnotCount
@@ -99,10 +122,15 @@ theorem cnotCount_eq_spec_sched {c : Dag} {P : Paths} {L : List (NodeId × Op)} 
   apply countP_congr_mem
   intro op hop
   obtain ⟨i, hm⟩ := mem_opsOf.mp hop
-  exact cnot_pred_eq (g.inv.op_wf i op hm) (hpl i op hm).toPlainOp
+  obtain ⟨h1, h2, h3, _⟩ := hc i op hm
+  exact cnot_pred_eq_of (g.inv.op_wf i op hm) h1 h2 h3
 
-/-- **`CircuitMeasureCount` on any circuit satisfying DagInv** -/
-theorem measureCount_eq_spec_sched {c : Dag} {P : Paths} {L : List (NodeId × Op)} (g : Good c P) (hpl : AllPlain c)
+theorem cnotCount_eq_spec_sched {c : Dag} {P : Paths} {L : List (NodeId × Op)} (g : Good c P) (hpl : AllPlain c)
+    (hS : Sched c P L) : Metrics.cnotCount c = Spec.cnotCount (L.map (·.2)) :=
+  cnotCount_eq_spec_sched_of g (countOK_of_allPlain hpl) hS
+
+/-- **`CircuitMeasureCount` on any circuit satisfying DagInv** (hypothesis `CountOK`) -/
+theorem measureCount_eq_spec_sched_of {c : Dag} {P : Paths} {L : List (NodeId × Op)} (g : Good c P) (hc : CountOK c)
     (hS : Sched c P L) : Metrics.measureCount c = Spec.measureCount (L.map (·.2)) := by
   unfold Metrics.measureCount
   rw [length_getNodeByLabels_ops ⟨P, g⟩ _ (by decide) (by decide)]
@@ -111,11 +139,16 @@ theorem measureCount_eq_spec_sched {c : Dag} {P : Paths} {L : List (NodeId × Op
   apply countP_congr_mem
   intro op hop
   obtain ⟨i, hm⟩ := mem_opsOf.mp hop
-  have := mcr_keys_iff (g.inv.op_wf i op hm) (hpl i op hm).toPlainOp
-  by_cases hc : op.kind = .mcr
-  · simp [hc, this.mpr hc]
-  · have : "MeasurementCNOTandReset" ∉ op.indexKeys := fun h => hc (this.mp h)
-    simp [hc, this]
+  obtain ⟨h1, _, _, h4⟩ := hc i op hm
+  have := mcr_keys_iff_of (g.inv.op_wf i op hm) h1 h4
+  by_cases hk : op.kind = .mcr
+  · simp [hk, this.mpr hk]
+  · have : "MeasurementCNOTandReset" ∉ op.indexKeys := fun h => hk (this.mp h)
+    simp [hk, this]
+
+theorem measureCount_eq_spec_sched {c : Dag} {P : Paths} {L : List (NodeId × Op)} (g : Good c P) (hpl : AllPlain c)
+    (hS : Sched c P L) : Metrics.measureCount c = Spec.measureCount (L.map (·.2)) :=
+  measureCount_eq_spec_sched_of g (countOK_of_allPlain hpl) hS
 
 /-! ## the prepared copy of any circuit with a schedule -/
 
@@ -280,18 +313,24 @@ theorem maxEmitEffDepth_eq_spec_sched {c : Dag} {P : Paths} {L : List (NodeId ×
 
 /-- **`register_depth` on any circuit satisfying DagInv**: `calculate_reg_depth(t)` — the literal `_max_depth(out)` recursion
     with the model's fuel — returns the ASAP depth of every register of the type on the scheduled operation list -/
-theorem calculateRegDepth_eq_spec_sched {c : Dag} {P : Paths} {L : List (NodeId × Op)} (g : Good c P) (hpl : AllPlain c)
+theorem calculateRegDepth_eq_spec_sched_of {c : Dag} {P : Paths} {L : List (NodeId × Op)} (g : Good c P) (hk : NoInputKey c)
     (hS : Sched c P L) (t : RegType) :
     c.calculateRegDepth t = .ok ((List.range (c.regs t)).map (fun i => (Spec.regDepth (L.map (·.2)) ⟨t, i⟩ : Int))) := by
   unfold calculateRegDepth
   apply mapM_range_ok
   intro i hi
   have hl : c.live ⟨t, i⟩ := hi
-  apply maxDepth_of_hasDepth ((sched_depth g hS (hS.input_not_key g hpl)).2 _ hl)
+  apply maxDepth_of_hasDepth ((sched_depth g hS (hS.input_not_key_of hk)).2 _ hl)
   have hb := regDepth_le_length (L.map (·.2)) ⟨t, i⟩
   have hlt := hS.length_lt g hl
   rw [List.length_map] at hb
   push_cast; omega
+
+/-- … in particular on circuits with plain operations -/
+theorem calculateRegDepth_eq_spec_sched {c : Dag} {P : Paths} {L : List (NodeId × Op)} (g : Good c P) (hpl : AllPlain c)
+    (hS : Sched c P L) (t : RegType) :
+    c.calculateRegDepth t = .ok ((List.range (c.regs t)).map (fun i => (Spec.regDepth (L.map (·.2)) ⟨t, i⟩ : Int))) :=
+  calculateRegDepth_eq_spec_sched_of g (noInputKey_of_allPlain g hpl) hS t
 
 end Metrics
 end Graphiq
